@@ -3,8 +3,11 @@
    also about the abstract tree.  Partial: that every written slot lies in a frame that is a
    page table of the hierarchy is shown per call (the slot is the one the walk reached) but
    the global statement over histories, and all of it for the recursive mapper's addresses, is
-   covered by the correspondence check (memory checksums of every data frame), not a theorem. *)
-From X86 Require Import Paging.Mapped Paging.MemProofs Paging.Tree Paging.TreeProofs Paging.Refine.
+   covered by the correspondence check (memory checksums of every data frame), not a theorem.
+   As built: for the MappedPageTable/OffsetPageTable memory model the footprint and allocator
+   statements ARE theorems for map_to, unmap, update_flags, set_flags_p*_entry and clean_up
+   (below); what remains covered only by the correspondence is RecursivePageTable. *)
+From X86 Require Import Paging.Mapped Paging.MemProofs Paging.Tree Paging.TreeProofs Paging.Refine Paging.RefineOps Paging.RefineParent Paging.RefineClean.
 Open Scope Z_scope.
 
 Theorem C09_new_table_completely_zeroed : forall s slot pf s' t i,
@@ -80,3 +83,51 @@ Proof.
   exists s', o. split; [exact Hm|exact Hfr].
 Qed.
 Print Assumptions C09_map_to_writes_only_table_and_allocator_frames.
+
+(* who requests and who releases frames (memory model, any state representing a hierarchy) *)
+Theorem C09_map_to_releases_nothing : forall s ch k page frame flags pf,
+  0 <= k <= 2 ->
+  rep 4 s ch (root s) -> tframe (root s) -> sep s (root s) ch -> pflags_ok pf ->
+  leaf_ok (Z.to_nat (k + 1)) (leaf_word k frame flags) ->
+  exists s' o, map_to s k page frame flags pf = Ok (s', o) /\ freed s' = freed s.
+Proof.
+  intros s ch k page frame flags pf Hk Hrep Ht Hsep Hpf Hw.
+  destruct (map_to_refines s ch k page frame flags pf Hk Hrep Ht Hsep Hpf Hw)
+    as (s' & o & ch' & a' & r & Hm & _ & _ & _ & _ & Hf & _).
+  exists s', o. split; [exact Hm|exact Hf].
+Qed.
+Print Assumptions C09_map_to_releases_nothing.
+
+Theorem C09_unmap_touches_no_allocator_and_only_the_hierarchy : forall s ch k page,
+  0 <= k <= 2 -> rep 4 s ch (root s) -> tframe (root s) -> sep s (root s) ch ->
+  same_alloc s (fst (unmap s k page)) /\
+  (forall a, 0 <= a -> ~ in_frames (root s :: frames_of ch) a -> rd (fst (unmap s k page)) a = rd s a).
+Proof.
+  intros s ch k page Hk Hrep Ht Hsep.
+  destruct (unmap_refines s ch k page Hk Hrep Ht Hsep) as (_ & _ & _ & Hsa & Ho). split; [exact Hsa|exact Ho].
+Qed.
+Print Assumptions C09_unmap_touches_no_allocator_and_only_the_hierarchy.
+
+Theorem C09_update_flags_touches_no_allocator_and_only_the_hierarchy : forall s ch k page flags,
+  0 <= k <= 2 -> rep 4 s ch (root s) -> tframe (root s) -> sep s (root s) ch ->
+  0 <= flags < W64 -> Z.testbit flags 0 = true ->
+  same_alloc s (fst (update_flags s k page flags)) /\
+  (forall a, 0 <= a -> ~ in_frames (root s :: frames_of ch) a -> rd (fst (update_flags s k page flags)) a = rd s a).
+Proof.
+  intros s ch k page flags Hk Hrep Ht Hsep Hfl Hp.
+  destruct (update_flags_refines s ch k page flags Hk Hrep Ht Hsep Hfl Hp) as (_ & _ & _ & Hsa & Ho).
+  split; [exact Hsa|exact Ho].
+Qed.
+Print Assumptions C09_update_flags_touches_no_allocator_and_only_the_hierarchy.
+
+Theorem C09_clean_up_requests_nothing_and_writes_only_the_hierarchy : forall s ch rs re s',
+  rep 4 s ch (root s) -> tframe (root s) -> sep s (root s) ch ->
+  clean_up_addr_range s rs re = Ok s' ->
+  alloc s' = alloc s /\ nalloc s' = nalloc s /\
+  (forall a, 0 <= a -> ~ in_frames (root s :: frames_of ch) a -> rd s' a = rd s a).
+Proof.
+  intros s ch rs re s' Hrep Ht Hsep H.
+  destruct (clean_up_addr_range_safe s ch rs re s' Hrep Ht Hsep H) as (ch' & fr & _ & _ & _ & _ & _ & Ha & Hn & Ho).
+  split; [exact Ha|]. split; [exact Hn|exact Ho].
+Qed.
+Print Assumptions C09_clean_up_requests_nothing_and_writes_only_the_hierarchy.
